@@ -107,8 +107,29 @@ func VerifC03Forged() {
 		}
 	}
 
-	route := vstub.NdChoice("route", 2)
-	if route == 0 {
+	route := vstub.NdChoice("route", 3)
+	if route == 2 {
+		// the attacker's own, honestly signed entry but written under ANOTHER log id,
+		// referenced (refs, not next) by a colluding writer's entry of this database
+		if idKind != 0 || keyKind != 0 || sigKind != 0 {
+			return
+		}
+		_, foreign := appendAs(env, nil, "/orbitdb/other/db", m, []byte("evil-foreign"))
+		if foreign == nil {
+			return
+		}
+		forged = foreign
+		top, err := entry.CreateEntryWithIO(context.Background(), env.IPFS, w, &entry.Entry{
+			LogID: a.id, Payload: []byte("top"), Next: []cid.Cid{honest.GetHash()}, Refs: []cid.Cid{foreign.GetHash()},
+			Clock: entry.NewLamportClock(w.PublicKey, honest.GetClock().GetTime()+1),
+		}, nil, env.IO)
+		if err != nil {
+			vstub.Fail("C03 CreateEntryWithIO failed")
+			return
+		}
+		_ = a.Sync(context.Background(), []ipfslog.Entry{top.Copy()})
+		vstub.Cover("as-foreign-ref")
+	} else if route == 0 {
 		_ = a.Sync(context.Background(), []ipfslog.Entry{forged.Copy()})
 		vstub.Cover("as-head")
 	} else {
